@@ -46,8 +46,9 @@ func (k Keeper) ExecuteVote(ctx context.Context, id uint64) error {
 	if vote.Executed {
 		return errors.New("vote already executed")
 	}
-	// amount of dispute fee to return to fee payers or give to reporter
-	disputeFeeMinusBurn := dispute.SlashAmount.Sub(dispute.BurnAmount)
+	// amount of dispute fee to give to the reporter: the fees of all rounds minus what is burned or set aside for the
+	// voters (the fees of later rounds enter FeeTotal and BurnAmount alike, so this is never negative)
+	disputeFeeMinusBurn := dispute.FeeTotal.Sub(dispute.BurnAmount)
 	// the burnAmount starts at %5 of disputeFee, half of which is burned and the other half is distributed to the voters
 	disputeBurnAmountDec := math.LegacyNewDecFromInt(dispute.BurnAmount)
 	halfBurnAmountDec := disputeBurnAmountDec.Quo(math.LegacyNewDec(2))
